@@ -164,3 +164,24 @@ package board
 //@   ensures [iff] result == pseudo(pos(b), uint16(m))
 //@   modifies nothing
 //@   nopanic
+//@
+//@ # ---- C10: repetition count
+//@ import count.smt2
+//@ axiom occUnfold(a $HashArr, t Hash, i int)
+//@   concl occUnfoldOK(a, t, uint64(i))
+//@ axiom occRange(a $HashArr, t Hash, i int)
+//@   hyp i < 1<<40
+//@   concl occRangeOK(a, t, uint64(i))
+//@
+//@ func (*Board).Threefold
+//@   props C10
+//@   requires len(b.hashes) < 1<<40
+//@   ensures [count] implies(len(b.hashes) > 0, int64(result) == min(3, 1 + occCount(arr(b.hashes), b.hashes[len(b.hashes)-1], uint64(len(b.hashes) - 5))))
+//@   ensures [empty] implies(len(b.hashes) == 0, result == 1)
+//@   modifies nothing
+//@   nopanic
+//@   use occUnfold(arr(b.hashes), hash, ix) at loop1
+//@   use occRange(arr(b.hashes), hash, ix) at loop1
+//@   use occRange(arr(b.hashes), hash, ix - 2) at loop1
+//@   loop 1: invariant -4 <= ix && ix <= len(b.hashes) - 5 && 1 <= cnt && cnt <= 2 && hash == b.hashes[len(b.hashes)-1]
+//@   loop 1: invariant uint64(cnt) - 1 + occCount(arr(b.hashes), hash, uint64(ix)) == occCount(arr(b.hashes), hash, uint64(len(b.hashes) - 5))
